@@ -34,7 +34,23 @@ func kernelCheck(c *core.Ctx) {
 	}
 	res := c.Model(reqs)
 	var sb strings.Builder
-	sb.WriteString("From Coq.Strings Require Import Byte String.\nFrom Coq Require Import List NArith Bool.\nImport ListNotations.\nFrom V Require Import lib.Bytes lib.Utf8 spec.JsLex model.JsEsc.\n")
+	sb.WriteString("From Coq.Strings Require Import Byte String.\nFrom Coq Require Import List NArith Bool.\nImport ListNotations.\nFrom V Require Import lib.Bytes lib.Utf8 spec.JsLex spec.JsScript model.JsEsc model.JsTrack.\n")
+	// script level: the verdicts of the extracted specification and the model tracker's flags, re-derived in the kernel
+	for _, k := range kernelScripts {
+		B := func(b string) string { return "(" + core.CoqBytes([]byte(b)) + " : bytes)" }
+		var tpl []string
+		for i, seg := range k.t.segs {
+			if seg != "" {
+				tpl = append(tpl, "map SB "+B(seg))
+			}
+			if i < len(k.t.idx) {
+				tpl = append(tpl, fmt.Sprintf("[SH %d]", k.t.idx[i]))
+			}
+		}
+		vals := "[" + B(k.vals[0]) + "; " + B(k.vals[1]) + "; " + B(k.vals[2]) + "]"
+		fmt.Fprintf(&sb, "Goal same_tokens %s (%s) %s = %v /\\ same_ends (%s) %s = %v. Proof. split; vm_compute; reflexivity. Qed.\n",
+			vals, strings.Join(tpl, " ++ "), B(k.out), k.bits[0] == '1', strings.Join(tpl, " ++ "), B(k.out), k.bits[1] == '1')
+	}
 	for i, s := range ss {
 		a := res[i]
 		if len(a) != 5 {
